@@ -228,6 +228,16 @@ CHECKS = {
         "Random immutable_heads() configurations (builtin, none(), tags(), bookmarks(), description globs, specific commits) and random mutating commands on random targets (half of them immutable) without --ignore-immutable; the immutable set is taken from jj before the command, afterwards every id in it must still be in all(); a snapshot on an immutable @ must create a single-parent child; a second workspace's @ made immutable from the first.",
         "undo, op restore, fetch and --at-op are excluded from this workload (they hide by time travel, not by rewriting).",
     ),
+    "C34": (
+        "runtime monitor: per-name (last synced, jj, git) sync model over random interleavings of jj bookmark edits and external git ref edits",
+        "Plain (explicit jj git import/export) and colocated repositories driven through the hooked jj binary and plain git: random bookmark create/move/delete/set and external git update-ref / branch -D on existing commits with imports, exports and convergence points (import; export; second import); after every step jj's bookmarks (read-only reader) and git's refs are compared with the model: one-sided changes propagate, two-sided different changes become conflicts (or documented fast-forwards, ancestry from git rev-list), conflicted bookmarks leave the git ref alone, git branches equal the resolved bookmarks, a second import creates no operation.",
+        "A conflict is compared by its adds and term count; read-only commands in colocated repos are not required to export; system git is 2.39, so a wrapper drops --porcelain from `git fetch` only.",
+    ),
+    "C45": (
+        "runtime monitor: lease model per pushed bookmark with remote updates placed before, between and during the push (hook-triggered)",
+        "A bare remote, a jj clone and a second plain-git clone: random local bookmark edits, fetches and jj git push (--bookmark/--all/--deleted) while the other clone force-pushes, deletes or updates refs before the fetch, between fetch and push, and - through JJ_VERIF_RUN_AT=git.push.before_spawn - while the push is in flight; per bookmark with R0 = remote position when git runs, E = recorded name@origin, T = local target: the remote changes only if R0 == E and only to T; otherwise remote, record and local bookmark are unchanged and the rejection is reported.",
+        "If R0 != E but R0 already equals T nothing is overwritten and only 'record is the old value or R0' is enforced; the set of attempted bookmarks is taken from jj's own announcement.",
+    ),
 }
 
 LEVEL = {"C15": "fault_enumeration"}
